@@ -167,6 +167,9 @@ template<typename T> void register_varopt_union(const std::string& name, int nva
         VF_CHECK(d.gadget.gadget, "varopt_union|image|gadget-flag-bit7-missing", c2);
         uint32_t marks = 0; for (bool m : d.gadget.marks) marks += m;
         VF_CHECK(marks == u.gadget_.num_marks_in_h_, "varopt_union|image-vs-state|marks", c2 + " stored=" + std::to_string(marks));
+        bool same_marks = d.gadget.marks.size() == d.gadget.h;
+        for (uint32_t i = 0; same_marks && i < d.gadget.h; ++i) same_marks = d.gadget.marks[i] == (u.gadget_.marks_ != nullptr && u.gadget_.marks_[i]);
+        VF_CHECK(same_marks, "varopt_union|image-vs-state|mark-bit-positions", c2);
         pin_lib_rng(99);
         VF_CHECK(u.get_result().get_n() == d.n, "varopt_union|image-vs-api|n-vs-result-n", c2);
         if (marks > 0) count("varopt_union_with_marks");
@@ -309,10 +312,15 @@ template<typename T> std::string readout_tdigest(const tdigest<T>& s0) {
   for (int i = 0; i <= 10; ++i) ranks.push_back(s.get_rank(static_cast<T>(lo + (hi - lo) * i / 10.0)));
   for (double q : {0.0, 0.01, 0.1, 0.25, 0.5, 0.75, 0.9, 0.99, 1.0}) qs.push_back(s.get_quantile(q));
   j.arr("q_ranks", ranks).arr("q_quantiles", qs);
-  // stored state (no public getter): centroids in order and buffered values, private members read only
-  std::vector<T> means, buf(s0.buffer_.begin(), s0.buffer_.end()); std::vector<uint64_t> ws;
-  for (const auto& c : s0.centroids_) { means.push_back(c.get_mean()); ws.push_back(c.get_weight()); }
-  j.arr("centroid_means", means).arr("centroid_weights", ws).arr("buffered_values", buf).put("reverse_merge", bool(s0.reverse_merge_));
+  // stored state (no public getter; private members read only): centroids and not yet merged values (= centroids of weight 1;
+  // a single-value image restores its value as a centroid where the writer may still have had it buffered), sorted by mean
+  std::vector<std::pair<T, uint64_t>> cw;
+  for (const auto& c : s0.centroids_) cw.push_back({c.get_mean(), c.get_weight()});
+  for (T v : s0.buffer_) cw.push_back({v, 1});
+  std::stable_sort(cw.begin(), cw.end());
+  std::vector<T> means; std::vector<uint64_t> ws;
+  for (auto& p : cw) { means.push_back(p.first); ws.push_back(p.second); }
+  j.arr("content_means", means).arr("content_weights", ws);
   return j.done();
 }
 template<typename T> void register_tdigest(const std::string& name, int nvariants) {
